@@ -113,6 +113,17 @@ func c19Doc(fam string, n int) string {
 			fmt.Fprintf(&sb, "fragment H%d on Query { c ...F%d }\n", i, i+1)
 		}
 		fmt.Fprintf(&sb, "fragment F%d on Query { a }\n", n)
+	case "excldiamond":
+		// one response key selected three times: under T0 (spreading F0), under T1 (plain), under T1 (spreading F0) -
+		// the same fields meet the same fragment first from mutually exclusive parents, then from non-exclusive
+		// ones - and F0 heads a chain of diamonds (2^n spread paths)
+		sb.WriteString("{ node { ... on T0 { child { ...F0 } } ... on T1 { child { x } } ... on T1 { child { ...F0 } } } }\n")
+		for i := 0; i < n; i++ {
+			fmt.Fprintf(&sb, "fragment F%d on Node { x ...A%d ...B%d }\n", i, i, i)
+			fmt.Fprintf(&sb, "fragment A%d on Node { x ...F%d }\n", i, i+1)
+			fmt.Fprintf(&sb, "fragment B%d on Node { x ...F%d }\n", i, i+1)
+		}
+		fmt.Fprintf(&sb, "fragment F%d on Node { x }\n", n)
 	case "twinchain":
 		// one response key selected twice at every level, both occurrences spreading the SAME next fragment:
 		// merged once per level, not once per path
@@ -210,7 +221,7 @@ func init() {
 			}
 		}
 		schema, _ := c19AbstractSchema(2)
-		for _, fam := range []string{"chain", "fan", "mesh", "wide", "exclchain", "diamond", "twinchain"} {
+		for _, fam := range []string{"chain", "fan", "mesh", "wide", "exclchain", "diamond", "twinchain", "excldiamond"} {
 			for n := 1; n <= maxN; n++ {
 				doc, err := parseDoc(c19Doc(fam, n))
 				if err != nil {
